@@ -877,11 +877,67 @@ def check_rebatch_model(ctx):
         shutil.rmtree(tmp, ignore_errors=True)
 
 
+def check_stale_handle(ctx):
+    """TWO live handles on one file: a store is pickled and unpickled while the original object stays alive (a pool handed to a worker,
+    a copy kept by the caller); batches are appended through the copy, the copy is flushed / closed, and only then the idle original
+    is flushed, closed or garbage-collected.  An idle handle has nothing to write: after every flush or close numpy.load gives the
+    in-memory sequence, and a store reopened at the end reports exactly its batches."""
+    import gc
+    import pickle
+    rng = ctx.rng
+    tmp = tempfile.mkdtemp(prefix='c06h-')
+    try:
+        for it in range(6 if ctx.quick() else 40):
+            b = rng.choice([1, 2, 5])
+            k1, k2 = rng.randint(1, 3), rng.randint(1, 3)
+            end = ['close', 'flush+close', 'gc'][it % 3]
+            first = ['flush', 'none'][(it // 3) % 2]
+            path = os.path.join(tmp, 'h%d' % it)
+            case = dict(kind='stale-handle', b=b, written_through_original=k1, appended_through_copy=k2, original_before_pickle=first, original_ended_by=end)
+            ctx.case(case, True)
+            ctx.count('stale_handle.end', end)
+            a = NpyStore(path, b)
+            rows = []
+            for i in range(k1):
+                a[i] = mk_batch(i + 1, b, (), 'f8')
+                rows += [float(i + 1)] * b
+            if first == 'flush':
+                a.flush()
+            c = pickle.loads(pickle.dumps(a))
+            for i in range(k1, k1 + k2):
+                c[i] = mk_batch(i + 1, b, (), 'f8')
+                rows += [float(i + 1)] * b
+            c.flush()
+            c.close()
+            got = np.load(path + '.npy').tolist()
+            if got != rows:
+                ctx.fail_input(case, 'after the copy was flushed and closed numpy.load gives %d rows, %d were written' % (len(got), len(rows)), rows, got)
+                continue
+            if end == 'close':
+                a.close()
+            elif end == 'flush+close':
+                a.flush()
+                a.close()
+            else:
+                del a
+                gc.collect()
+            got = np.load(path + '.npy').tolist()
+            re = NpyStore(path, b)
+            n_re = len(re)
+            re.close()
+            if got != rows or n_re != k1 + k2:
+                ctx.fail_input(case, 'after the idle original handle ended (%s) numpy.load gives %d rows and a reopened store reports %d batches; '
+                               '%d rows / %d batches were written' % (end, len(got), n_re, len(rows), k1 + k2), rows, got)
+    finally:
+        shutil.rmtree(tmp, ignore_errors=True)
+
+
 def run(ctx):
     process(ctx, gen_cases(ctx, ctx.budget(220, 1500)), ctx.budget(0.34, 1.0))
     check_pool(ctx)
     check_rebatch(ctx)
     check_rebatch_model(ctx)
+    check_stale_handle(ctx)
 
 
 def search(ctx):
